@@ -20,11 +20,16 @@ tsan_leg() { # $1 = ID [extra vmon args...]
     log "leg tsan: vmon $id --leg tsan"
     TSAN_OPTIONS="halt_on_error=0 exitcode=0 second_deadlock_stack=1" "$H/target/tsan/$TRIPLE/release/vmon" "$id" --tier "$TIER" --seed "$SEED" --verif-dir "$VERIF" --out-dir "$OUT" --leg tsan "$@" 2> "$log"
     local rc=$?
-    local n; n=$(grep -c "WARNING: ThreadSanitizer" "$log")
+    # report blocks whose racing accesses both lie inside the work-stealing deque of rayon/crossbeam (read_volatile +
+    # later validation, invisible to TSan) are counted separately and are not a verdict on the code under test
+    local cls; cls=$(python3 "$VERIF/tools/tsan_filter.py" "$log")
+    local n; n=$(echo "$cls" | head -1 | sed 's/relevant=\([0-9]*\).*/\1/')
+    local ni; ni=$(echo "$cls" | head -1 | sed 's/.*internal=\([0-9]*\).*/\1/')
     san_note tsan ThreadSanitizer "$n" "$log" 1
-    if [ "$n" -gt 0 ]; then
+    printf '{"leg":"tsan_runtime_internal","report_blocks_inside_rayon_crossbeam_deque":%s}\n' "${ni:-0}" > "$LEGDIR/$id.tsan_internal.tool.json"
+    if [ "${n:-0}" -gt 0 ]; then
         echo "VIOLATION property=$id replay=$log"
-        echo "  [tsan] $n ThreadSanitizer report block(s); first: $(grep -m1 -A3 'WARNING: ThreadSanitizer' "$log" | tr '\n' ' ' | cut -c1-300)"
+        echo "  [tsan] $n ThreadSanitizer report block(s) involving the code under test; first: $(echo "$cls" | sed -n '2,6p' | tr '\n' ' ' | cut -c1-300)"
         status=1
     elif [ $rc -eq 1 ]; then status=1
     elif [ $rc -ne 0 ] && [ $status -eq 0 ]; then echo "BROKEN: tsan leg exited with $rc"; tail -5 "$log"; status=2; fi
